@@ -92,10 +92,15 @@ Verdict(e) ==
       [] e.k = "clone" -> IF ~ClonePre(e) THEN "pre" ELSE IF CloneOK(e) THEN "ok" ELSE "bad"
       [] OTHER -> "pre"
 
-TInit == l \in 1..Stride /\ l <= Len(Trace)
+(* The chains start on indices that stand for no line: TLC evaluates initial    *)
+(* states (and their invariants) on the small stack of its main thread, where  *)
+(* a deep recursive operator can overflow; every real line is judged in a      *)
+(* successor state by a worker thread.                                         *)
+TInit == l \in (1 - Stride)..0
 TNext == l + Stride <= Len(Trace) /\ l' = l + Stride
 TSpec == TInit /\ [][TNext]_l
 
-Judge == LET v == Verdict(Ev) IN
+Judge == IF l < 1 THEN TRUE ELSE
+         LET v == Verdict(Ev) IN
          IF v = "ok" THEN TRUE ELSE CSVWrite("%1$s,%2$s", <<l, v>>, "trace_verdicts.csv")
 =============================================================================
